@@ -727,9 +727,9 @@ static void ProcessFile(char const* FileName, LongWord Offset) {
                     if (CDataLower || CDataUpper) {
                         errno = 0;
                         fprintf(TargFile, "};\n\n");
-                        NumCBlocks++;
                         ChkIO(TargName);
                     }
+                    NumCBlocks++;
                     break;
                 default:
                     break;
